@@ -265,6 +265,34 @@ def run(ctx: Ctx):
         at = (f' n="{n}"' if n is not None else "") + (f' m="{m}"' if m is not None else "")
         jobs.append(((ALT_XSD,), f"<r><e{at}>1</e><e n='6' m='5'>1</e></r>".encode("utf-8"),
                      f"type alternative tests on n={n!r} m={m!r}", True, "1.1"))
+    # (v) odd but legal (or not even well-formed) byte streams: encodings, BOMs, XML 1.1, unbound prefixes, CDATA,
+    # processing instructions, internal DTD subsets without entities, very many attributes / very long names
+    body = '<t:r xmlns:t="urn:T"><t:i>5</t:i></t:r>'
+    raw = [
+        ("utf-16 with BOM", ('<?xml version="1.0" encoding="UTF-16"?>' + body).encode("utf-16"), True),
+        ("utf-16 declared, utf-8 bytes", ('<?xml version="1.0" encoding="UTF-16"?>' + body).encode("utf-8"), False),
+        ("latin-1 declared", ('<?xml version="1.0" encoding="ISO-8859-1"?><t:r xmlns:t="urn:T"><t:q>\xe9:x</t:q></t:r>')
+         .encode("latin-1"), True),
+        ("utf-8 BOM", b"\xef\xbb\xbf" + body.encode(), True),
+        ("invalid utf-8", b'<t:r xmlns:t="urn:T"><t:i>\xff\xfe</t:i></t:r>', False),
+        ("xml 1.1 declaration", ('<?xml version="1.1"?>' + body).encode(), True),
+        ("unbound prefix", b"<t:r><t:i>5</t:i></t:r>", False),
+        ("CDATA value", b'<t:r xmlns:t="urn:T"><t:i><![CDATA[5]]></t:i></t:r>', True),
+        ("PIs and comments everywhere", b'<?p a?><!-- c --><t:r xmlns:t="urn:T"><?p b?><t:i>5<!-- c --></t:i><?p c?></t:r><?p d?>', True),
+        ("internal subset without entities", b'<!DOCTYPE r [<!ATTLIST r a CDATA #IMPLIED>]><t:r xmlns:t="urn:T"><t:i>5</t:i></t:r>', True),
+        ("3000 attributes", ('<t:r xmlns:t="urn:T" xmlns:z="urn:Z" ' + " ".join(f'z:a{i}="{i}"' for i in range(3000))
+                             + "><t:i>5</t:i></t:r>").encode(), True),
+        ("very long name", ('<t:r xmlns:t="urn:T"><t:' + "n" * 70000 + "/></t:r>").encode(), True),
+        ("empty document", b"", False), ("only white space", b"  \n ", False), ("only a comment", b"<!-- x -->", False),
+        ("two roots", b'<t:r xmlns:t="urn:T"/><t:r xmlns:t="urn:T"/>', False),
+        ("NUL character reference", b'<t:r xmlns:t="urn:T"><t:i>&#0;</t:i></t:r>', False),
+        ("control character reference", b'<t:r xmlns:t="urn:T"><t:i>&#1;</t:i></t:r>', False),
+        ("surrogate reference", b'<t:r xmlns:t="urn:T"><t:i>&#xD800;</t:i></t:r>', False),
+        ("undefined entity", b'<t:r xmlns:t="urn:T"><t:i>&nope;</t:i></t:r>', False),
+    ]
+    for about, data, wf in raw:
+        for ver in ("1.0", "1.1"):
+            jobs.append(((TYPED_XSD,), data, f"raw bytes: {about} ({ver})", wf, ver))
     for bad in ctx.pmap(outcome_case, jobs):
         total += 6
         for about, name, what in bad:
@@ -278,7 +306,9 @@ def run(ctx: Ctx):
                 "validation} from TLC + default limits at 999/1000/1001; (ii) every (3rd) truncation point and "
                 "seeded garbling of pool documents; (iii) 27 hostile values x stray root attributes; (iv) ill-typed "
                 "identity-field values, unknown xsi:type on declared children (1.0 and 1.1), XSD 1.1 type alternatives "
-                "whose tests fail dynamically; each x 6 entry points / modes")
+                "whose tests fail dynamically; (v) 20 odd byte streams (encodings, BOMs, XML 1.1, unbound prefixes, CDATA, PIs, "
+                "internal subsets, 3000 attributes, 70 000-character names, illegal character references); each x 6 "
+                "entry points / modes")
     ctx.assumptions += ["library hierarchy = XMLSchemaException and subclasses (incl. XMLResourceError)",
                         "remote schema locations are never fetched (no network): hints pointing to remote "
                         "locations fail inside the library"]
